@@ -218,8 +218,41 @@ def not_(a):
     return tuple(x ^ ONE for x in a)
 
 
+def _lin_terms(v):
+    view = _lin_view.get(v)
+    if view is not None:
+        return dict(view[1]), view[2]
+    cv = const_value(v)
+    if cv is not None:
+        return {}, cv
+    return {v: 1}, 0
+
+
 def ite(c, a, b):
+    """Vector if-then-else.  If both sides are linear forms over the same operands that differ only by
+    a constant d, the result is the linear form  b + d*zext(c)  (so `if c {x += 1}` and
+    `x += c as T` have one normal form)."""
     assert len(a) == len(b)
+    a, b = tuple(a), tuple(b)
+    w = len(a)
+    if a == b:
+        return a
+    if c == ONE:
+        return a
+    if not c:
+        return b
+    if w > 1:
+        ta, ca = _lin_terms(a)
+        tb, cb = _lin_terms(b)
+        if ta == tb and (ta or (ca != cb)):
+            d = (ca - cb) & ((1 << w) - 1)
+            if d:
+                cond = c
+                if ONE_ATOM in cond:          # canonical polarity: ite(!c, a, b) = ite(c, b, a)
+                    cond = cond ^ ONE
+                    tb, cb, d = ta, ca, (-d) & ((1 << w) - 1)
+                terms = list(tb.items()) + [((cond,) + (ZERO,) * (w - 1), d)]
+                return lin(w, terms, cb)
     return tuple(bite(c, x, y) for x, y in zip(a, b))
 
 
